@@ -115,3 +115,74 @@ func observePayHist(o *Toks, mk func() payloader, calls []PayCall) {
 		observePay(o, p, twin, c.MTU, c.Input)
 	}
 }
+
+type depacketizer interface {
+	Unmarshal(packet []byte) ([]byte, error)
+	IsPartitionHead(payload []byte) bool
+	IsPartitionTail(marker bool, payload []byte) bool
+}
+
+// observeDepHist feeds a sequence of payloads to ONE receiver and writes `<n> DepObs*`
+// (mirrors Pred.C09.DepObs): per call `res <meta tokens> head tail0 tail1 auxPanic freshSame twinSame`.
+// meta writes the codec-specific metadata tokens of a receiver (may be nil).
+// After each call the buffer handed to the main receiver is overwritten; the twin receiver
+// always gets pristine copies, so retained aliases show up as twinSame=0 on later calls.
+func observeDepHist(o *Toks, mk func() depacketizer, payloads [][]byte, meta func(t *Toks, d depacketizer)) {
+	d, twin := mk(), mk()
+	o.Nat(len(payloads))
+	for _, pl := range payloads {
+		buf := cloneBytes(pl)
+		var out []byte
+		var err error
+		panicked := try(func() { out, err = d.Unmarshal(buf) })
+		outCopy := append([]byte{}, out...)
+		var mt Toks
+		if meta != nil && !panicked {
+			try(func() { meta(&mt, d) })
+		}
+		switch {
+		case panicked:
+			o.Panic()
+		case err != nil:
+			o.Err("other")
+		default:
+			o.Ok().Bytes(outCopy)
+		}
+		if meta != nil {
+			if panicked {
+				var z Toks
+				meta(&z, mk())
+				o.Tok(z.String())
+			} else {
+				o.Tok(mt.String())
+			}
+		}
+		var head, t0, t1 bool
+		aux := try(func() {
+			head = d.IsPartitionHead(buf)
+			t0 = d.IsPartitionTail(false, buf)
+			t1 = d.IsPartitionTail(true, buf)
+		})
+		o.Bool(head).Bool(t0).Bool(t1).Bool(aux)
+		// fresh receiver, same payload
+		f := mk()
+		var fout []byte
+		var ferr error
+		fp := try(func() { fout, ferr = f.Unmarshal(cloneBytes(pl)) })
+		freshSame := fp == panicked && (ferr != nil) == (err != nil) && (ferr != nil || fp || string(fout) == string(outCopy))
+		if freshSame && meta != nil && !fp && ferr == nil {
+			var fm Toks
+			try(func() { meta(&fm, f) })
+			freshSame = fm.String() == mt.String()
+		}
+		// twin receiver, pristine copies
+		var tout []byte
+		var terr error
+		tp := try(func() { tout, terr = twin.Unmarshal(cloneBytes(pl)) })
+		twinSame := tp == panicked && (terr != nil) == (err != nil) && (terr != nil || tp || string(tout) == string(outCopy))
+		o.Bool(freshSame).Bool(twinSame)
+		for i := range buf {
+			buf[i] ^= 0xA5
+		}
+	}
+}
